@@ -1101,3 +1101,385 @@ Proof.
   unfold check_C09, check_C09_safety. intros. apply andb_prop in H. destruct H as (H & _).
   eapply check_calls_imp; eauto.
 Qed.
+
+(* ================= soundness of the oracle's value clauses =================
+   trace invariant of the driver: every value in the reply log was published by the scenario
+   for that very request (as the action of its handler, as an answer to its stored port, or as
+   the action of the task holding its port) *)
+Definition also_vals (c : nat) (l : list (nat * option N)) : list N :=
+  flat_map (fun x => match x with (c2, Some v) => if Nat.eqb c c2 then [v] else [] | _ => [] end) l.
+
+Fixpoint des_plans (pl : list (nat * plan)) (c : nat) : list N :=
+  match pl with
+  | [] => []
+  | (c', p) :: r =>
+      (match p_act p with AReply v => if Nat.eqb c c' then [v] else [] | _ => [] end)
+      ++ also_vals c (p_also p) ++ des_plans r c
+  end.
+
+Fixpoint des_tplans (tl : list (nat * taction)) (c : nat) : list N :=
+  match tl with
+  | [] => []
+  | (c', TReply v) :: r => (if Nat.eqb c c' then [v] else []) ++ des_tplans r c
+  | _ :: r => des_tplans r c
+  end.
+
+Definition des (d : drv) (c : nat) (v : N) : Prop :=
+  In v (des_plans (d_plans d) c) \/ In v (des_tplans (d_tplans d) c).
+
+Definition DV (d : drv) : Prop := forall c v, In (c, v) (replies (d_s d)) -> des d c v.
+
+(* K d d': d' was obtained from d without touching the published plans, keeping DV *)
+Definition K (d d' : drv) : Prop :=
+  d_plans d' = d_plans d /\ d_tplans d' = d_tplans d /\ (DV d -> DV d').
+
+Lemma K_refl : forall d, K d d.
+Proof. repeat split; auto. Qed.
+Lemma K_trans : forall a b c, K a b -> K b c -> K a c.
+Proof. unfold K. intros a b c (A1 & A2 & A3) (B1 & B2 & B3). repeat split; try congruence. auto. Qed.
+Lemma K_eq : forall d d', d_s d' = d_s d -> d_plans d' = d_plans d -> d_tplans d' = d_tplans d -> K d d'.
+Proof. unfold K, DV, des. intros d d' E1 E2 E3. rewrite E1, E2, E3. auto. Qed.
+
+Lemma K_dstep : forall d l, (forall c v, l <> Reply c v) -> K d (dstep d l).
+Proof.
+  intros d l NR. split; [reflexivity|]. split; [reflexivity|]. intros H c v IN. unfold dstep, with_s in IN. cbn [d_s] in IN.
+  destruct (replies_step (d_s d) l) as [E|(c0 & v0 & _ & -> & _)]; [|exfalso; eapply NR; eauto].
+  rewrite E in IN. apply H in IN. exact IN.
+Qed.
+
+Lemma K_reply : forall d c v, des d c v -> K d (dstep d (Reply c v)).
+Proof.
+  intros d c v DS. split; [reflexivity|]. split; [reflexivity|]. intros H c1 v1 IN. unfold dstep, with_s in IN. cbn [d_s] in IN.
+  destruct (replies_step (d_s d) (Reply c v)) as [E|(c0 & v0 & cl & E0 & _ & _ & E)]; rewrite E in IN.
+  - apply H in IN. exact IN.
+  - inversion E0; subst. apply in_app_or in IN. destruct IN as [IN|[X|[]]].
+    + apply H in IN. exact IN.
+    + inversion X; subst. exact DS.
+Qed.
+
+Lemma K_dxstep : forall d x, (forall l, x <> XL l) -> K d (dxstep d x).
+Proof.
+  intros d x NL. split; [reflexivity|]. split; [reflexivity|]. intros H c v IN. apply H.
+  unfold dxstep, with_s in IN. cbn [d_s] in IN.
+  assert (E : replies (xstep (d_s d) x) = replies (d_s d)).
+  { destruct x as [l|ts tmo|g]; [exfalso; eapply NL; eauto|reflexivity|]. cbn [xstep].
+    assert (AB : forall ids s, replies (fold_left (fun ss i => step ss (Abandon i)) ids s) = replies s).
+    { induction ids; cbn [fold_left]; intros; auto. rewrite IHids. simpl. break; reflexivity. }
+    assert (S2 : forall s a t c0, replies (step (step s (NewCall a t None)) (Start c0)) = replies s).
+    { intros. simpl. break; reflexivity. }
+    destruct (nth_error (groups (d_s d)) g) as [gr|]; auto. destruct (gg_failed gr); auto.
+    destruct (nth_error (gg_targets gr) (length (gg_ids gr))); auto.
+    destruct (nth_error _ _) as [cl|]; [destruct (c_st cl)|]; unfold set_groups; cbn [replies];
+      rewrite ?AB, ?S2; auto. }
+  rewrite E in IN. auto.
+Qed.
+
+Lemma K_dpush : forall d t, K d (dpush d t).
+Proof. intros. apply K_eq; reflexivity. Qed.
+
+Lemma K_wake_ready : forall cs i d, K d (wake_ready i cs d).
+Proof.
+  induction cs; simpl; intros; [apply K_refl|]. eapply K_trans; [|apply IHcs].
+  destruct (c_st a); try apply K_refl. destruct (c_ch a); try apply K_refl; apply K_dpush.
+Qed.
+Lemma K_wake_callers : forall d, K d (wake_callers d).
+Proof. intros. apply K_wake_ready. Qed.
+
+Ltac notreply := intros ? ? X; discriminate X.
+
+Lemma assoc_in : forall {A} (l : list (nat * A)) k x, assoc k l = Some x -> In (k, x) l.
+Proof.
+  induction l as [|[k' y] l]; simpl; intros; [discriminate|].
+  destruct (Nat.eqb_spec k k'); [inversion H; subst; auto|auto].
+Qed.
+
+Lemma des_plans_act : forall pl c p v, In (c, p) pl -> p_act p = AReply v -> In v (des_plans pl c).
+Proof.
+  induction pl as [|[c' q] pl]; simpl; intros; [contradiction|]. destruct H as [E|IN].
+  - inversion E; subst. rewrite H0, Nat.eqb_refl. simpl. auto.
+  - apply in_or_app. right. apply in_or_app. right. eauto.
+Qed.
+
+Lemma des_plans_also : forall pl c0 p c v, In (c0, p) pl -> In (c, Some v) (p_also p) -> In v (des_plans pl c).
+Proof.
+  induction pl as [|[c' q] pl]; simpl; intros; [contradiction|]. destruct H as [E|IN].
+  - inversion E; subst. apply in_or_app. right. apply in_or_app. left.
+    unfold also_vals. apply in_flat_map. exists (c, Some v). split; auto. rewrite Nat.eqb_refl. simpl. auto.
+  - apply in_or_app. right. apply in_or_app. right. eauto.
+Qed.
+
+Lemma des_tplans_in : forall tl c v, In (c, TReply v) tl -> In v (des_tplans tl c).
+Proof.
+  induction tl as [|[c' [v'|]] tl]; simpl; intros; try contradiction.
+  - destruct H as [E|IN]; [inversion E; subst; rewrite Nat.eqb_refl; simpl; auto|apply in_or_app; right; auto].
+  - destruct H as [E|IN]; [discriminate|auto].
+Qed.
+
+Lemma K_do_also : forall a l d, (forall c v, In (c, Some v) l -> des d c v) -> K d (do_also a l d).
+Proof.
+  induction l as [|[c [v|]] l]; simpl; intros d H; [apply K_refl| |].
+  - assert (K1 : K d (if stored_at d a c then dstep d (Reply c v) else d)).
+    { destruct (stored_at d a c); [apply K_reply; apply H; auto|apply K_refl]. }
+    eapply K_trans; [exact K1|]. apply IHl. intros c1 v1 IN.
+    destruct K1 as (E1 & E2 & _). unfold des. rewrite E1, E2. apply H. auto.
+  - assert (K1 : K d (if stored_at d a c then dstep d (DropPort c) else d)).
+    { destruct (stored_at d a c); [apply K_dstep; notreply|apply K_refl]. }
+    eapply K_trans; [exact K1|]. apply IHl. intros c1 v1 IN.
+    destruct K1 as (E1 & E2 & _). unfold des. rewrite E1, E2. apply H. auto.
+Qed.
+
+Lemma K_run_actor : forall f a d, K d (run_actor f a d).
+Proof.
+  induction f; simpl; intros; [apply K_refl|].
+  destruct (nth_error (actors (d_s d)) a) as [ac|]; [|apply K_refl].
+  destruct (negb (a_alive ac)); [apply K_refl|].
+  destruct (mem a (d_kill d)).
+  { eapply K_trans; [|apply K_wake_callers]; apply K_dstep; notreply. }
+  destruct (a_cur ac) as [c|].
+  - destruct (assoc c (d_plans d)) as [p|] eqn:AS; [|apply K_refl]. apply assoc_in in AS.
+    assert (KA : K d (do_also a (p_also p) d)).
+    { apply K_do_also. intros c1 v1 IN. left. eapply des_plans_also; eauto. }
+    destruct KA as (E1 & E2 & E3).
+    assert (KA : K d (do_also a (p_also p) d)) by (repeat split; auto).
+    set (d1 := do_also a (p_also p) d) in *.
+    destruct (p_act p) eqn:PA.
+    + eapply K_trans; [exact KA|]. eapply K_trans; [|apply IHf].
+      eapply K_trans; [|apply K_wake_callers]. eapply K_trans; [|apply K_dstep; notreply].
+      apply K_reply. left. rewrite E1. eapply des_plans_act; eauto.
+    + eapply K_trans; [exact KA|]. eapply K_trans; [|apply IHf]. eapply K_trans; [|apply K_wake_callers].
+      eapply K_trans; [|apply K_dstep; notreply]. apply K_dstep; notreply.
+    + eapply K_trans; [exact KA|]. eapply K_trans; [|apply IHf]. eapply K_trans; [|apply K_wake_callers].
+      eapply K_trans; [|apply K_dstep; notreply]. apply K_dstep; notreply.
+    + eapply K_trans; [exact KA|]. eapply K_trans; [|apply IHf]. eapply K_trans; [|apply K_dpush].
+      eapply K_trans; [|apply K_wake_callers]. eapply K_trans; [|apply K_dstep; notreply]. apply K_dstep; notreply.
+    + eapply K_trans; [exact KA|]. eapply K_trans; [|apply K_wake_callers]; apply K_dstep; notreply.
+    + eapply K_trans; [exact KA|]. eapply K_trans; [|apply K_wake_callers]; apply K_dstep; notreply.
+  - destruct (mem a (d_stop d)).
+    { eapply K_trans; [|apply K_wake_callers]; apply K_dstep; notreply. }
+    destruct (a_mbox ac).
+    + destruct (mem a (d_drain d)); [|apply K_refl].
+      eapply K_trans; [|apply K_wake_callers]; apply K_dstep; notreply.
+    + eapply K_trans; [|apply IHf]. apply K_dstep; notreply.
+Qed.
+
+Lemma K_run_helper : forall c d, K d (run_helper c d).
+Proof.
+  unfold run_helper. intros. destruct (nth_error (calls (d_s d)) c) as [cl|]; [|apply K_refl].
+  destruct (c_loc cl); try apply K_refl. destruct (assoc c (d_tplans d)) as [[v|]|] eqn:AS; try apply K_refl.
+  - eapply K_trans; [|apply K_wake_callers]. apply K_reply. right. apply des_tplans_in. apply assoc_in. auto.
+  - eapply K_trans; [|apply K_wake_callers]; apply K_dstep; notreply.
+Qed.
+
+Lemma K_start_only : forall c d, K d (start_only c d).
+Proof.
+  unfold start_only. intros. cbv zeta.
+  assert (K0 : K d (dstep d (Start c))) by (apply K_dstep; notreply).
+  destruct (nth_error (calls (d_s (dstep d (Start c)))) c) as [cl|]; auto.
+  destruct (c_st cl); auto.
+  all: try (eapply K_trans; [exact K0|apply K_dpush]).
+Qed.
+
+Lemma K_run_start : forall c d, K d (run_start c d).
+Proof.
+  unfold run_start. intros. destruct (nth_error (calls (d_s d)) c) as [cl|]; [|apply K_refl].
+  destruct (c_fwd cl).
+  - eapply K_trans; [apply K_start_only|apply K_dpush].
+  - eapply K_trans; [|apply K_dstep; notreply]. apply K_start_only.
+Qed.
+
+Lemma K_multi_loop : forall f g d, K d (multi_loop f g d).
+Proof.
+  induction f; cbn [multi_loop]; intros; [apply K_refl|].
+  destruct (nth_error (groups (d_s d)) g) as [gr|]; [|apply K_refl]. destruct (gg_failed gr); [apply K_refl|].
+  destruct (nth_error (gg_targets gr) (length (gg_ids gr))); [|apply K_refl]. cbv zeta.
+  eapply K_trans; [|apply IHf].
+  assert (KX : K d (dxstep d (XMultiSend g))) by (apply K_dxstep; intros l X; discriminate X).
+  destruct (nth_error (groups (d_s (dxstep d (XMultiSend g)))) g) as [gr1|]; auto.
+  destruct (gg_failed gr1); auto.
+  all: try (eapply K_trans; [exact KX|apply K_dpush]).
+Qed.
+
+Lemma K_fold_push : forall ids d, K d (fold_left (fun dd c => dpush dd (TPoll c)) ids d).
+Proof. induction ids; simpl; intros; [apply K_refl|]. eapply K_trans; [apply K_dpush|apply IHids]. Qed.
+
+Lemma K_run_multi : forall g d, K d (run_multi g d).
+Proof.
+  unfold run_multi. intros. destruct (nth_error (groups (d_s d)) g) as [gr|]; [|apply K_refl]. cbv zeta.
+  pose proof (K_multi_loop (S (length (gg_targets gr))) g d) as KM.
+  destruct (nth_error (groups (d_s (multi_loop (S (length (gg_targets gr))) g d))) g) as [gr1|]; auto.
+  destruct (gg_failed gr1); auto.
+  all: try (eapply K_trans; [exact KM|apply K_fold_push]).
+Qed.
+
+Lemma K_settle : forall tf f d, K d (settle tf f d).
+Proof.
+  induction f; cbn [settle]; intros; [apply K_refl|]. destruct (d_q d) as [|t q]; [apply K_refl|].
+  eapply K_trans; [|apply IHf]. eapply K_trans; [apply (K_eq d (with_q d q)); reflexivity|].
+  destruct t; [apply K_run_start|apply K_run_multi|apply K_run_actor|apply K_run_helper|apply K_dstep; notreply].
+Qed.
+
+Lemma K_wake_fired : forall d, K d (wake_fired d).
+Proof.
+  unfold wake_fired. intros. generalize (fired_list (wheel (d_s d)) 0 (calls (d_s d))). intro l. revert d.
+  induction l; simpl; intros; [apply K_refl|]. eapply K_trans; [apply K_dpush|apply IHl].
+Qed.
+
+Lemma K_settle_full : forall tf f d, K d (settle_full tf f d).
+Proof.
+  unfold settle_full. intros. eapply K_trans; [|apply K_settle]. eapply K_trans; [|apply K_wake_fired].
+  eapply K_trans; [|apply K_dstep; notreply]. apply K_settle.
+Qed.
+
+Lemma designated_app : forall a b c, designated (a ++ b) c = designated a c ++ designated b c.
+Proof.
+  induction a as [|o a IH]; simpl; intros; auto.
+  destruct o; auto; try (rewrite IH; rewrite <- ?app_assoc; reflexivity).
+  destruct t; rewrite IH; rewrite <- ?app_assoc; reflexivity.
+Qed.
+
+Definition PV (d : drv) (pre : list op) : Prop :=
+  DV d /\ (forall c v, des d c v -> In v (designated pre c)).
+
+Lemma PV_K : forall d d' pre o, K d d' -> PV d pre -> PV d' (pre ++ [o]).
+Proof.
+  intros d d' pre o (E1 & E2 & E3) (H1 & H2). split; auto.
+  intros c v DS. unfold des in DS. rewrite E1, E2 in DS. rewrite designated_app. apply in_or_app. left. auto.
+Qed.
+
+Lemma PV_exec_op : forall tf f d o pre, PV d pre -> PV (exec_op_gen tf f d o) (pre ++ [o]).
+Proof.
+  intros tf f d o pre H. destruct o; unfold exec_op_gen.
+  - eapply PV_K; eauto. eapply K_trans; [|apply K_dpush]. apply K_dstep; notreply.
+  - eapply PV_K; eauto. eapply K_trans; [|apply K_dpush]. apply K_dstep; notreply.
+  - eapply PV_K; eauto. eapply K_trans; [|apply K_dpush]. apply K_dxstep. intros l X; discriminate X.
+  - destruct (assoc c (d_plans d)) eqn:AS; [eapply PV_K; eauto; apply K_refl|].
+    assert (P1 : PV (add_plan d c p) (pre ++ [OAct c p])).
+    { destruct H as (H1 & H2). split.
+      - intros c1 v1 IN. destruct (H1 _ _ IN) as [X|X]; [left|right; exact X].
+        simpl. apply in_or_app. right. apply in_or_app. right. exact X.
+      - intros c1 v1 [X|X]; rewrite designated_app; apply in_or_app.
+        + simpl in X. apply in_app_or in X. destruct X as [X|X].
+          * right. simpl. apply in_or_app. left. exact X.
+          * apply in_app_or in X. destruct X as [X|X].
+            -- right. simpl. apply in_or_app. right. rewrite app_nil_r. exact X.
+            -- left. apply H2. left. exact X.
+        + left. apply H2. right. exact X. }
+    assert (KE : forall t, PV (dpush (add_plan d c p) t) (pre ++ [OAct c p])).
+    { intro t. destruct P1 as (A & B). split; auto. }
+    destruct (nth_error (calls (d_s d)) c) as [cl|]; auto.
+    destruct (nth_error (actors (d_s d)) (c_callee cl)) as [ac|]; auto.
+    destruct (a_cur ac) as [c'|]; auto. destruct (Nat.eqb c c'); auto.
+  - destruct (assoc c (d_tplans d)) eqn:AS; [eapply PV_K; eauto; apply K_refl|].
+    assert (P1 : PV (add_tplan d c t) (pre ++ [OTask c t])).
+    { destruct H as (H1 & H2). split.
+      - intros c1 v1 IN. destruct (H1 _ _ IN) as [X|X]; [left; exact X|right].
+        simpl. destruct t; auto. apply in_or_app. right. exact X.
+      - intros c1 v1 [X|X]; rewrite designated_app; apply in_or_app.
+        + left. apply H2. left. exact X.
+        + simpl in X. destruct t as [v|].
+          * apply in_app_or in X. destruct X as [X|X].
+            -- right. simpl. rewrite app_nil_r. exact X.
+            -- left. apply H2. right. exact X.
+          * left. apply H2. right. exact X. }
+    assert (KE : forall t0, PV (dpush (add_tplan d c t) t0) (pre ++ [OTask c t])).
+    { intro t0. destruct P1 as (A & B). split; auto. }
+    destruct (nth_error (calls (d_s d)) c) as [cl|]; auto. destruct (c_loc cl); auto.
+  - destruct (mem a (d_kill d)); [eapply PV_K; eauto; apply K_refl|].
+    eapply PV_K; eauto. eapply K_trans; [|apply K_dpush]. apply K_eq; reflexivity.
+  - destruct (mem a (d_stop d)); [eapply PV_K; eauto; apply K_refl|].
+    eapply PV_K; eauto. eapply K_trans; [|apply K_dpush]. apply K_eq; reflexivity.
+  - destruct (mem a (d_drain d)); [eapply PV_K; eauto; apply K_refl|].
+    eapply PV_K; eauto. eapply K_trans; [|apply K_dpush]. eapply K_trans; [|apply K_dstep; notreply].
+    apply K_eq; reflexivity.
+  - eapply PV_K; eauto. apply K_settle_full.
+  - eapply PV_K; eauto. eapply K_trans; [|apply K_wake_fired]. eapply K_trans; [|apply K_dstep; notreply].
+    eapply K_trans; [|apply K_dstep; notreply]. apply K_settle_full.
+  - eapply PV_K; eauto. eapply K_trans; [|apply K_settle_full]. apply K_dstep; notreply.
+Qed.
+
+Lemma PV_exec : forall f ops d pre, PV d pre -> PV (fold_left (exec_op_gen f f) ops d) (pre ++ ops).
+Proof.
+  induction ops as [|o ops IH]; simpl; intros d pre H; [rewrite app_nil_r; auto|].
+  replace (pre ++ o :: ops) with ((pre ++ [o]) ++ ops) by (rewrite <- app_assoc; reflexivity).
+  apply IH. apply PV_exec_op. auto.
+Qed.
+
+Lemma check_values_calls_map : forall ops (f : nat * call -> ocall) l c0,
+  (forall i cl, nth_error l i = Some cl ->
+     match oc_res (f ((c0 + i)%nat, cl)) with OSuccess v => mem_N v (designated ops (c0 + i)) | _ => true end = true) ->
+  check_values_calls ops c0 (map f (combine (seq c0 (length l)) l)) = true.
+Proof.
+  induction l; simpl; intros; auto.
+  pose proof (H 0%nat a eq_refl) as H0. rewrite Nat.add_0_r in H0. rewrite H0. simpl.
+  apply IHl. intros i cl N. specialize (H (S i) cl N). rewrite Nat.add_succ_r in H. auto.
+Qed.
+
+(* the value clauses of the executable oracle accept every run of the model's driver *)
+Theorem oracle_sound_values : forall n ops, check_C09_values ops (observe n ops) = true.
+Proof.
+  intros n ops. unfold check_C09_values, observe.
+  assert (PVF : PV (exec n (ops ++ [OSettle])) (ops ++ [OSettle])).
+  { unfold exec, exec_op. generalize FUEL. intro f.
+    apply (PV_exec f (ops ++ [OSettle]) (drv0 n) []). split; [intros c v []|].
+    intros c v [X|X]; simpl in X; contradiction. }
+  set (d := exec n (ops ++ [OSettle])) in *. pose proof (exec_is_run n (ops ++ [OSettle])) as ER. fold d in ER.
+  set (s := d_s d) in *. cbn [o_calls o_groups].
+  assert (VAL : forall c cl v tt, nth_error (calls s) c = Some cl -> c_st cl = CGot (RSuccess v) tt ->
+                mem_N v (designated ops c) = true).
+  { intros c cl v tt N ST. destruct PVF as (DVd & DSd).
+    assert (FR : first_reply c (replies s) = Some v).
+    { pose proof (success_sound_x (rev (d_ls d)) 0 n c cl v tt) as SS. cbv zeta in SS.
+      rewrite <- ER in SS. apply SS; auto. }
+    unfold first_reply in FR. destruct (find _ (replies s)) as [[c1 v1]|] eqn:F; [|discriminate].
+    apply find_some in F. destruct F as (IN & E). simpl in E. apply Nat.eqb_eq in E. subst c1.
+    inversion FR; subst v1. apply DVd in IN. apply DSd in IN.
+    rewrite designated_app in IN. simpl in IN. rewrite app_nil_r in IN.
+    unfold mem_N. apply existsb_exists. exists v. split; auto. apply N.eqb_refl. }
+  apply andb_true_intro. split.
+  - apply check_values_calls_map. intros i cl N. simpl (0 + i)%nat. cbn [oc_res].
+    destruct (member_of_group s i); simpl; auto.
+    destruct (c_st cl) as [| |[] ?] eqn:ST; simpl; auto. eapply VAL; eauto.
+  - apply forallb_forall. intros [g ids] IN. apply in_map_iff in IN. destruct IN as (gr & E & _).
+    inversion E; subst. unfold check_values_group.
+    destruct (gres_of s gr) as [|rs tt|] eqn:G; auto.
+    unfold gres_of in G. destruct (gg_failed gr); [discriminate|].
+    destruct (Nat.eqb _ _ && all_done s (gg_ids gr)); [|discriminate]. inversion G; subst.
+    apply forallb_forall. intros [c r] INC.
+    assert (R : r = res_of s c).
+    { clear - INC. revert INC. generalize (gg_ids gr). induction l; simpl; intros; [contradiction|].
+      destruct INC as [X|X]; [inversion X; auto|auto]. }
+    subst r. unfold res_of. destruct (nth_error (calls s) c) as [cl|] eqn:N; auto.
+    destruct (c_st cl) as [| |[] ?] eqn:ST; simpl; auto. eapply VAL; eauto.
+Qed.
+
+Lemma check_calls_imp_values : forall ops pts alive fw members l c,
+  check_calls ops pts alive fw members c l = true -> check_values_calls ops c l = true.
+Proof.
+  induction l; simpl; intros; auto. apply andb_prop in H. destruct H as (H1 & H2).
+  unfold check_call in H1. apply andb_prop in H1. destruct H1 as (_ & H1). unfold check_call_rest in H1.
+  apply andb_prop in H1. destruct H1 as (H1 & _). apply andb_prop in H1. destruct H1 as (H1 & _).
+  rewrite H1. simpl. eauto.
+Qed.
+
+Lemma check_vector_imp_values : forall ops calls ts ids rs,
+  check_vector ops calls ts ids rs = true ->
+  forallb (fun x => match x with (c, OSuccess v) => mem_N v (designated ops c) | _ => true end) (combine ids rs) = true.
+Proof.
+  induction ts; destruct ids, rs; simpl; intros; auto; try discriminate.
+  apply andb_prop in H. destruct H as (H1 & H2). apply andb_prop in H1. destruct H1 as (_ & H1).
+  rewrite (IHts _ _ H2), andb_true_r. destruct o; auto.
+Qed.
+
+Lemma check_groups_imp_values : forall ops calls ms gs,
+  check_groups ops calls ms gs = true -> forallb (check_values_group ops) gs = true.
+Proof.
+  induction ms as [|[ts tmo] ms]; destruct gs as [|[g ids] gs]; simpl; intros; auto; try discriminate.
+  apply andb_prop in H. destruct H as (H1 & H2). rewrite (IHms _ H2), andb_true_r.
+  destruct g; auto. eapply check_vector_imp_values; eauto.
+Qed.
+
+Theorem oracle_includes_values : forall n ops o, check_C09 n ops o = true -> check_C09_values ops o = true.
+Proof.
+  unfold check_C09, check_C09_values. intros n ops o H. apply andb_prop in H. destruct H as (H1 & H2).
+  apply andb_true_intro. split; [eapply check_calls_imp_values; eauto|eapply check_groups_imp_values; eauto].
+Qed.
